@@ -1,6 +1,20 @@
 //go:build verif
 
 // Contracts for package switches, property C29 (comment-only; read by /verif/engine, never compiled into a build).
+//
+// C29 (per-step link of "networks deliver every message exactly once with metadata intact"): the SWITCH stages
+// route -> forward -> sendOut of routeForwardSendMW move every flit, unchanged, to exactly one next-stage buffer.
+// Whole-network exactly-once / liveness is NOT claimed here (connections: C10, endpoints: C31, routing tables: C30).
+//   resolveOutputBufIdx  result == portIndex[FindPort(dst)]; panics IFF FindPort gives "" or an unknown port
+//   route    (port A)    RouteBuffer' = RouteBuffer[K:], ForwardBuffer' = ForwardBuffer ++ RouteBuffer[:K] with only
+//                        OutputBufIdx rewritten to portIndex[FindPort(RouteTo)]; K = max(0, min(NumInputChannel, len RB, room in FB))
+//   forward  (A -> B)    ForwardBuffer(A)' = ForwardBuffer(A)[K:]; SendOutBuffer(B)' = SendOutBuffer(B) ++ (at most one entry);
+//                        every taken flit whose OutputBufIdx is B is that entry, all 18 fields unchanged; nothing is pushed into a
+//                        full send-out buffer (no panic of PushTyped); NextArbPort advances round-robin
+//   sendOut  (port A)    SendOutBuffer' = SendOutBuffer[K:], the K flits are sent on port A in order; Send only when CanSend
+//                        (no panic of the trusted Send contract); 13 flit fields unchanged, envelope Src/Dst rewritten
+// No map is iterated in these functions (portIndex is only looked up); every result above is a function of the buffer
+// contents, the port list order and NextArbPort.
 package switches
 
 //@ ghost var canSend set
@@ -183,3 +197,60 @@ package switches
 //@   loop 1: invariant rtShift(m)
 //@   loop 1: invariant rtPrefix(m)
 //@   loop 1: invariant rtMoved(m)
+
+// ---- forward: input side = port A's forward buffer, output side = port B's send-out buffer (A, B arbitrary) ----
+//@ func fwK(m) = old(len(m.comp.State.PortComplexes[c29A].ForwardBuffer.elements)) - len(m.comp.State.PortComplexes[c29A].ForwardBuffer.elements)            // flits taken from A's forward buffer
+//@ func fwG(m) = len(m.comp.State.PortComplexes[c29B].SendOutBuffer.elements) - old(len(m.comp.State.PortComplexes[c29B].SendOutBuffer.elements))          // flits appended to B's send-out buffer
+//@ pred bPort(m) = 0 <= c29B && c29B < pcN(m)
+//@ pred sobWF(m) = forall b in 0..pcN(m) :: len(m.comp.State.PortComplexes[b].SendOutBuffer.elements) <= max(int(m.comp.State.PortComplexes[b].SendOutBuffer.cap), 0)
+// every queued flit carries the index of an existing port complex (established by route: portIndex values; assumed here)
+//@ pred idxOK(m) = forall a in 0..pcN(m) :: forall x in 0..len(m.comp.State.PortComplexes[a].ForwardBuffer.elements) :: 0 <= m.comp.State.PortComplexes[a].ForwardBuffer.elements[x].OutputBufIdx && m.comp.State.PortComplexes[a].ForwardBuffer.elements[x].OutputBufIdx < pcN(m)
+// separation (precondition): no forward buffer shares its backing array with a (non-nil) send-out buffer; B's send-out buffer shares with no other
+//@ pred fwSep(m) = (forall a in 0..pcN(m) :: ref(m.comp.State.PortComplexes[a].ForwardBuffer.elements) <= allocTop && (forall b in 0..pcN(m) :: ref(m.comp.State.PortComplexes[b].SendOutBuffer.elements) != 0 ==> ref(m.comp.State.PortComplexes[a].ForwardBuffer.elements) != ref(m.comp.State.PortComplexes[b].SendOutBuffer.elements))) && ref(m.comp.State.PortComplexes[c29B].SendOutBuffer.elements) <= allocTop && (forall b in 0..pcN(m) :: b != c29B && ref(m.comp.State.PortComplexes[b].SendOutBuffer.elements) != 0 ==> ref(m.comp.State.PortComplexes[c29B].SendOutBuffer.elements) != ref(m.comp.State.PortComplexes[b].SendOutBuffer.elements))
+//@ pred fwBasics(m) = swShape(m) && aPort(m) && bPort(m) && 0 < pcN(m) && pcN(m) < 4611686018427387904 && sobWF(m)
+//@ pred fwInCount(m) = 0 <= fwK(m) && fwK(m) <= old(len(m.comp.State.PortComplexes[c29A].ForwardBuffer.elements))
+//@ pred fwInKeep(m) = forall x in 0..len(m.comp.State.PortComplexes[c29A].ForwardBuffer.elements) :: m.comp.State.PortComplexes[c29A].ForwardBuffer.elements[x] == old(m.comp.State.PortComplexes[c29A].ForwardBuffer.elements)[x + fwK(m)]
+//@ pred fwOutCount(m) = fwG(m) == 0 || fwG(m) == 1
+//@ pred fwOutPrefix(m) = forall x in 0..old(len(m.comp.State.PortComplexes[c29B].SendOutBuffer.elements)) :: m.comp.State.PortComplexes[c29B].SendOutBuffer.elements[x] == old(m.comp.State.PortComplexes[c29B].SendOutBuffer.elements[x])
+//@ pred fwOutNew(m) = fwG(m) == 1 ==> m.comp.State.PortComplexes[c29B].SendOutBuffer.elements[old(len(m.comp.State.PortComplexes[c29B].SendOutBuffer.elements))].OutputBufIdx == c29B
+// every flit taken from A whose output index is B is (unchanged, all 18 fields) the one entry appended to B's send-out buffer
+//@ pred fwRouted(m) = forall x in 0..fwK(m) :: old(m.comp.State.PortComplexes[c29A].ForwardBuffer.elements)[x].OutputBufIdx == c29B ==> fwG(m) == 1 && m.comp.State.PortComplexes[c29B].SendOutBuffer.elements[old(len(m.comp.State.PortComplexes[c29B].SendOutBuffer.elements))] == old(m.comp.State.PortComplexes[c29A].ForwardBuffer.elements)[x]
+
+//@ fn (*routeForwardSendMW).forward
+//@   property C29
+//@   requires fwBasics(m) && idxOK(m) && fwSep(m) && 0 <= m.comp.State.NextArbPort && m.comp.State.NextArbPort < pcN(m)
+//@   label C29.fwd.in.count
+//@   ensures fwInCount(m)
+//@   label C29.fwd.in.keep
+//@   ensures fwInKeep(m)
+//@   label C29.fwd.out.count
+//@   ensures fwOutCount(m)
+//@   label C29.fwd.out.prefix
+//@   ensures fwOutPrefix(m)
+//@   label C29.fwd.out.new
+//@   ensures fwOutNew(m)
+//@   label C29.fwd.routed
+//@   ensures fwRouted(m)
+//@   label C29.fwd.progress
+//@   ensures !result ==> fwK(m) == 0 && fwG(m) == 0
+//@   label C29.fwd.wf
+//@   ensures sobWF(m) && idxOK(m)
+//@   label C29.fwd.arb
+//@   ensures m.comp.State.NextArbPort == (old(m.comp.State.NextArbPort) + 1 < pcN(m) ? old(m.comp.State.NextArbPort) + 1 : 0)
+//@   assigns m.comp.State.NextArbPort, key("E|noc/networking/switching/switches.portComplexState|.ForwardBuffer.elements"), key("E|noc/networking/switching/switches.portComplexState|.SendOutBuffer.elements"), key("E|noc/networking/switching/switches.routedFlit|")
+//@   loop 0: invariant fwBasics(m) && 0 <= offset && offset <= pcN(m) && len(occupiedOutputPort) == pcN(m) && unchanged(m.comp.State.NextArbPort)
+//@   loop 0: invariant idxOK(m)
+//@   loop 0: invariant fwSep(m)
+//@   loop 0: invariant fwInCount(m) && fwOutCount(m) && (occupiedOutputPort[c29B] <==> fwG(m) == 1) && (!madeProgress ==> fwK(m) == 0 && fwG(m) == 0)
+//@   loop 0: invariant fwInKeep(m)
+//@   loop 0: invariant fwOutPrefix(m)
+//@   loop 0: invariant fwOutNew(m)
+//@   loop 0: invariant fwRouted(m)
+//@   loop 1: invariant fwBasics(m) && 0 <= offset && offset < pcN(m) && 0 <= i && i < pcN(m) && len(occupiedOutputPort) == pcN(m) && unchanged(m.comp.State.NextArbPort)
+//@   loop 1: invariant idxOK(m)
+//@   loop 1: invariant fwSep(m)
+//@   loop 1: invariant fwInCount(m) && fwOutCount(m) && (occupiedOutputPort[c29B] <==> fwG(m) == 1) && (!madeProgress ==> fwK(m) == 0 && fwG(m) == 0)
+//@   loop 1: invariant fwInKeep(m)
+//@   loop 1: invariant fwOutPrefix(m)
+//@   loop 1: invariant fwOutNew(m)
+//@   loop 1: invariant fwRouted(m)
